@@ -13,7 +13,8 @@ Answer `{"verdict": "ok" | "fail:<first failed clause>" | "error:<kind>:<what>",
 **Line protocol** over ℤ (fields separated by `|`, lists by blanks, lists of lists by `;`):
 `compress|idx|n` · `unique|f` · `assparse|shape|tuples|values` · `accumulate|shape|tuples|values` ·
 `coo|shape|tuples|values|dense` · `csr|nrows|ncols|rowptr|colidx|values|dense` · `ascsr|nrows|tuples` ·
-`unravel|shape|flat` · `horner|shape|tuple`
+`unravel|shape|flat` · `horner|shape|tuple` · `blockpos|shape|tuples` (strides and positions of `Inflate._assparse`, and
+whether every position is the row-major position)
 -/
 open Lean NutilsVerif NutilsVerif.Expr NutilsVerif.Proto NutilsVerif.C05
 
@@ -167,6 +168,14 @@ def handleLine (line : String) : String :=
   | ["unravel", shape, flat] =>
     match parseNats shape, flat.toNat? with
     | some shape, some k => showNats (unravelLoop shape k)
+    | _, _ => "bad-request"
+  | ["blockpos", shape, tuples] =>
+    match parseNats shape, parseNatLists tuples with
+    | some shape, some tuples =>
+      if shape.isEmpty || !tuples.all (inBox shape) then "bad-request precondition" else
+      let st := blockStrides shape
+      let pos := tuples.map fun t => stridedPos t st
+      s!"{showNats st}|{showNats pos}|{if pos == tuples.map (flatIdx shape) then "spec-agrees" else "spec-differs"}"
     | _, _ => "bad-request"
   | ["horner", shape, tuple] =>
     match parseNats shape, parseNats tuple with
